@@ -4,12 +4,16 @@ package app
 
 import (
 	"github.com/Oneledger/protocol/action"
+	"github.com/Oneledger/protocol/action/transfer"
 	sv "github.com/Oneledger/protocol/zz_sv"
 )
 
 // svSomeTx: a transaction of a state-changing kind with havoc payload, signed
 // by the parties it names (valid or not: amounts and funds are arbitrary).
 func svSomeTx(n int) action.SignedTx {
+	if sv.Tier() == 0 {
+		n = 1 // quick: party A plays every role (thorough: all role assignments)
+	}
 	e := &svEnv{n: n}
 	var raw action.RawTx
 	var signers []int
@@ -24,14 +28,22 @@ func svSomeTx(n int) action.SignedTx {
 	return svSign(raw, signers...)
 }
 
+// svBlockTx: the transaction carried by the block in the relational harnesses:
+// a SEND from A to B with arbitrary amount (any integer), currency name and fee.
+func svBlockTx() action.SignedTx {
+	raw := svRaw(action.SEND, &transfer.Send{From: svParty_(0).Addr, To: svParty_(1).Addr, Amount: svAnyAmount("blk.amount")})
+	return svSign(raw, 0)
+}
+
 // SV_C07_checktx_isolated: two replicas process the same two blocks; on one of
 // them a CheckTx of an arbitrary transaction is injected at one ABCI call
 // boundary of the first block. All consensus results must be equal.
 //
-// sv:bounds genesis with 2 validators (stake 3,000,000 each) and symbolic funded balances; block 2 carries one SEND with havoc payload, block 3 is empty; one injected CheckTx (SEND, STAKE or DELEGATE with havoc payload, signed by the parties it names) at any of the 6 call boundaries of block 2 (before/after BeginBlock, after DeliverTx, after EndBlock, after Commit)
+// sv:bounds genesis with 2 validators (stake 3,000,000 each) and symbolic funded balances; block 3 carries one SEND A->B with arbitrary amount/currency/fee, block 4 is empty; one injected CheckTx (SEND, STAKE or DELEGATE with havoc amount/currency; quick: party A in every role, thorough: every role assignment over 2 parties) at any of the 5 call boundaries of block 3 (before/after BeginBlock, after DeliverTx, after EndBlock, after Commit)
 // sv:outside several CheckTx calls; other kinds in the mempool; real concurrency between the mempool and consensus connections (Tendermint serialises them); longer histories
 // sv:goal DeliverTx codes/gas/data, validator updates and the ordered write set of both blocks are the same with and without the injected CheckTx
 func SV_C07_checktx_isolated() {
+	sv.NominalSizes(64)
 	nv := 2
 	mk := func() *App {
 		app := svNewApp()
@@ -49,9 +61,9 @@ func SV_C07_checktx_isolated() {
 	a, b := mk(), mk()
 	fund(a)
 	fund(b)
-	tx := svSign(svBuildSend(&svEnv{n: 2}), 0)
+	tx := svBlockTx()
 	chk := svSomeTx(2)
-	where := sv.Choice("inject.at", 6)
+	where := sv.Choice("inject.at", 5)
 	ta1 := svBlock(a, 3, nv, []action.SignedTx{tx}, func(pos int) {
 		if pos == where {
 			svCheck(a, chk)
